@@ -1,6 +1,6 @@
 (* C13_Props.v — the property theorems of C13 and nothing else.
    Each is closed by `exact <lemma>` and followed by Print Assumptions. *)
-From V Require Import C13_Consts C13_Model C13_Spec C13_Proofs C13_Proofs2.
+From V Require Import C13_Consts C13_Model C13_Spec C13_Proofs C13_Proofs2 C13_Proofs3 C13_Proofs4.
 Open Scope N_scope.
 
 (* ---------------- (1) acceptance ---------------- *)
@@ -44,6 +44,48 @@ Theorem connect_error_clean : forall name msg details,
   examine_connect_error (Some (render_connect_error name msg details)) = [].
 Proof. exact connect_error_clean_proof. Qed.
 Print Assumptions connect_error_clean.
+
+(* Connect, as the reference server renders it (its handlers + connect-go; tied to the Go code by the
+   c13.cerrrt / c13.cesrt cases): the unary error body for any of the 16 codes, any message, any details
+   (with or without debug rendering) is examined without feedback ... *)
+Theorem connect_error_wire_clean : forall code msg details,
+  wf_wire_error (code, msg, details) ->
+  examine_connect_error (Some (wire_error code msg details)) = [].
+Proof. exact connect_error_wire_clean_proof. Qed.
+Print Assumptions connect_error_wire_clean.
+
+(* ... and so is the end-of-stream message, with such an error or without one, and with any metadata whose
+   names are tokens and whose values are field content *)
+Theorem connect_end_stream_clean : forall err trailers,
+  match err with Some e => wf_wire_error e | None => True end -> Forall wf_field trailers ->
+  examine_connect_end_stream (Some (wire_end_stream err trailers)) = [].
+Proof. exact connect_end_stream_clean_proof. Qed.
+Print Assumptions connect_end_stream_clean.
+
+(* ---------------- (1b) the Connect JSON examiners characterised ---------------- *)
+(* checkNoDuplicateKeys accepts a tree exactly when no object at any depth repeats a key and every
+   number converts *)
+Theorem clean_json_iff : forall t, check_dup t = None <-> clean_json t.
+Proof. exact clean_iff_proof. Qed.
+Print Assumptions clean_json_iff.
+
+(* each examiner is silent on a text exactly when the text is JSON and its value tree satisfies the
+   declarative well-formedness predicate of C13_Spec: silent => well-formed and well-formed => silent, for
+   ALL trees; this covers every rejection below the top level *)
+Theorem connect_detail_silent_iff : forall t,
+  examine_connect_error_detail t = [] <-> exists j, t = Some j /\ wf_detail j.
+Proof. exact detail_iff_proof. Qed.
+Print Assumptions connect_detail_silent_iff.
+
+Theorem connect_error_silent_iff : forall t,
+  examine_connect_error t = [] <-> exists j, t = Some j /\ wf_connect_error j.
+Proof. exact error_iff_proof. Qed.
+Print Assumptions connect_error_silent_iff.
+
+Theorem connect_end_stream_silent_iff : forall t,
+  examine_connect_end_stream t = [] <-> exists j, t = Some j /\ wf_end_stream j.
+Proof. exact end_stream_iff_proof. Qed.
+Print Assumptions connect_end_stream_silent_iff.
 
 (* the scanner is silent exactly on well-formed percent-encodings *)
 Theorem scan_iff : forall s, scan_msg s 0 = [] <-> pct_wf s.
@@ -239,6 +281,31 @@ Theorem flags_not_an_object : forall t, (forall ms, t <> Some (JObj ms)) ->
 Proof. exact flags_not_an_object_proof. Qed.
 Print Assumptions flags_not_an_object.
 
+(* below the top level: a duplicate key (or a number that does not convert) at ANY depth ... *)
+Theorem flags_unclean_json : forall t, ~ clean_json t ->
+  examine_connect_error (Some t) <> [] /\ examine_connect_end_stream (Some t) <> [].
+Proof. exact flags_unclean_json_proof. Qed.
+Print Assumptions flags_unclean_json.
+
+(* ... any malformed element of "details" (not an object, unknown / missing / mistyped key, invalid type name,
+   padded or invalid base64) ... *)
+Theorem flags_bad_detail : forall ms l d, In (bs "details", JArr l) ms -> In d l -> ~ wf_detail d ->
+  examine_connect_error (Some (JObj ms)) <> [].
+Proof. exact flags_bad_detail_proof. Qed.
+Print Assumptions flags_bad_detail.
+
+(* ... any malformed "error" of an end-of-stream message ... *)
+Theorem flags_bad_end_stream_error : forall ms v, In (bs "error", v) ms -> ~ wf_connect_error v ->
+  examine_connect_end_stream (Some (JObj ms)) <> [].
+Proof. exact flags_bad_end_stream_error_proof. Qed.
+Print Assumptions flags_bad_end_stream_error.
+
+(* ... any malformed metadata entry (invalid field name, value not an array of valid field-value strings) *)
+Theorem flags_bad_metadata_entry : forall ms es kv, In (bs "metadata", JObj es) ms -> In kv es ->
+  ~ wf_metadata_entry kv -> examine_connect_end_stream (Some (JObj ms)) <> [].
+Proof. exact flags_bad_metadata_entry_proof. Qed.
+Print Assumptions flags_bad_metadata_entry.
+
 (* ---------------- (3) totality: no Crash ---------------- *)
 Theorem examine_total : forall content, exists fbs m, examine_grpc_end_stream content = Done (fbs, m).
 Proof. exact examine_total_proof. Qed.
@@ -321,3 +388,54 @@ Example ex_cerr_flagged :
 Proof. vm_compute. auto. Qed.
 Example ex_code_names : length c13_code_names = 16%nat.
 Proof. reflexivity. Qed.
+
+From Coq Require Import Lia.
+(* the Connect renderings: hypotheses inhabited, both sides of the iffs occur *)
+Definition ex_dbg : json := JObj [(bs "name", JStr (bs "x")); (bs "n", JNum true)].
+Definition ex_err : N * bytes * list wdetail := (5, bs "m", [(bs "a.B", [1; 2; 3], Some ex_dbg); (bs "c.D", [], None)]).
+Example ex_wire_hyps : wf_wire_error ex_err /\ wf_field (bs "X-Custom", [bs "v 1"; bs ""]).
+Proof.
+  split.
+  - split; [cbn; lia|]. unfold ex_err. cbn [snd]. apply Forall_cons; [|apply Forall_cons; [|apply Forall_nil]].
+    + split; [vm_compute; reflexivity|]. split; [repeat constructor; unfold is_byte; lia|]. cbn [snd].
+      intros x [= <-]. apply clean_json_iff. vm_compute. reflexivity.
+    + split; [vm_compute; reflexivity|]. split; [constructor|]. cbn [snd]. intros x [=].
+  - split; cbn [fst snd].
+    + apply Forall_forall. intros c Hc. unfold tchar.
+      assert (F : forallb (fun c => existsb (N.eqb c)
+                (bs "!#$%&'*+-.^_`|~0123456789abcdefghijklmnopqrstuvwxyzABCDEFGHIJKLMNOPQRSTUVWXYZ")) (bs "X-Custom") = true) by (vm_compute; reflexivity).
+      rewrite forallb_forall in F. specialize (F c Hc). apply existsb_exists in F as (x & Hx & E). apply N.eqb_eq in E. subst. exact Hx.
+    + apply Forall_forall. intros v [<-|[<-|[]]]; apply Forall_forall; intros c Hc; cbn in Hc;
+        repeat (destruct Hc as [<-|Hc]; [right; lia|]); destruct Hc.
+Qed.
+Example ex_wire_trees :
+  wire_end_stream (Some ex_err) [(bs "x-b", [bs "1"]); (bs "a", []); (bs "X-B", [bs "2"]); (bs "a-c", [bs ""])] =
+  JObj [(bs "error", JObj [(bs "code", JStr (bs "not_found")); (bs "message", JStr (bs "m"));
+                           (bs "details", JArr [JObj [(bs "type", JStr (bs "a.B")); (bs "value", JStr (bs "AQID")); (bs "debug", ex_dbg)];
+                                                JObj [(bs "type", JStr (bs "c.D")); (bs "value", JStr [])]])]);
+        (bs "metadata", JObj [(bs "A-C", JArr [JStr []]); (bs "X-B", JArr [JStr (bs "1"); JStr (bs "2")])])] /\
+  wire_end_stream None [] = JObj [] /\
+  wire_error 17 [] [] = JObj [(bs "code", JStr (bs "code_17"))].
+Proof. vm_compute. auto. Qed.
+Example ex_wire_silent :
+  examine_connect_end_stream (Some (wire_end_stream (Some ex_err) [(bs "x-b", [bs "1"])])) = [] /\
+  examine_connect_end_stream (Some (wire_end_stream None [])) = [] /\
+  examine_connect_error (Some (wire_error 17 [] [])) = [CeCodeName].
+Proof. vm_compute. auto. Qed.
+(* a duplicate key three levels down, a padded value, a bad metadata value: flagged, hence not well-formed *)
+Example ex_depth :
+  examine_connect_error (Some (JObj [(bs "code", JStr (bs "internal"));
+     (bs "details", JArr [JObj [(bs "type", JStr (bs "a.B")); (bs "value", JStr (bs "QQ"));
+                                (bs "debug", JObj [(bs "k", JNull); (bs "k", JNull)])]])])) = [JDup 0] /\
+  examine_connect_error (Some (JObj [(bs "code", JStr (bs "internal"));
+     (bs "details", JArr [JObj [(bs "type", JStr (bs "a.B")); (bs "value", JStr (bs "QQ=="))]])])) = [CdValueB64] /\
+  examine_connect_end_stream (Some (JObj [(bs "metadata", JObj [(bs "k", JArr [JStr [0]])])])) = [EsMetaValue] /\
+  examine_connect_end_stream (Some (JObj [(bs "error", JObj [(bs "code", JStr (bs "code_5"))])])) = [CeCodeName] /\
+  ~ wf_end_stream (JObj [(bs "error", JObj [(bs "code", JStr (bs "code_5"))])]) /\
+  ~ clean_json (JArr [JObj [(bs "k", JNull); (bs "k", JNull)]]).
+Proof.
+  repeat split; try (vm_compute; reflexivity).
+  - intros W. assert (E : examine_connect_end_stream (Some (JObj [(bs "error", JObj [(bs "code", JStr (bs "code_5"))])])) = [])
+      by (apply connect_end_stream_silent_iff; eauto). vm_compute in E. discriminate E.
+  - intros C. apply clean_json_iff in C. vm_compute in C. discriminate C.
+Qed.
